@@ -6,6 +6,7 @@ from ..vloop import texc
 
 import asyncio
 import datetime
+import dataclasses
 import inspect
 import math
 from typing import Any
@@ -224,6 +225,29 @@ def dpt_values(cls: type[DPTBase]) -> list[Any]:
         vals.append(v)
         if hasattr(v, "as_dict"):
             vals.append(v.as_dict())
+        if dataclasses.is_dataclass(v) and raw == bytes((i * 37 + 1) % 256 for i in range(cls.payload_length)) or (dataclasses.is_dataclass(v) and not any(dataclasses.is_dataclass(x) for x in vals[:-2])):
+            # structured values: every field replaced in turn by a wrong-typed / out-of-range value, as object and as dict
+            for f in dataclasses.fields(v):
+                cur = getattr(v, f.name)
+                subs: list[Any] = [1.5, 0.5, 2, -1, 255, 256, 1000, None, "1", True, 2**40, float("nan")]
+                if isinstance(cur, tuple):
+                    subs += [(1.5, 0.5), (0.5,), (0.5, 0.5, 0.5), ("a", "b"), (None, 0.5)]
+                for sub in subs:
+                    try:
+                        vals.append(dataclasses.replace(v, **{f.name: sub}))
+                    except Exception:  # noqa: BLE001  refused by the value class itself
+                        pass
+                    if hasattr(v, "as_dict"):
+                        d = dict(v.as_dict())
+                        if f.name in d:
+                            d[f.name] = list(sub) if isinstance(sub, tuple) else sub
+                            vals.append(d)
+                        elif isinstance(cur, tuple) and isinstance(sub, tuple) is False:
+                            # tuple-valued fields are spread over several dict keys (x_axis / y_axis): substitute each key
+                            for key in [k_ for k_ in d if k_ not in {g.name for g in dataclasses.fields(v)}]:
+                                d2 = dict(d)
+                                d2[key] = sub
+                                vals.append(d2)
         if hasattr(v, "name") and hasattr(v, "value") and not isinstance(v, (int, float, str, bool)):
             vals.append(v.name.lower())
     return vals
